@@ -1,12 +1,25 @@
 /-
-  Line-protocol handlers for C04.  `handle` receives the tokens after the property id.
+  Line-protocol handlers for C04 (depth-bounded creation reaches exactly the bounded language).
 -/
 import GEVerif.Model.Sexp
+import GEVerif.Model.Lang
+import GEVerif.Model.TreeOps
+import GEVerif.Drive.Val
+import GEVerif.Drive.C01
 
 namespace GEVerif.Drive.C04
-open GEVerif Sexp
+open GEVerif Sexp GEVerif.Drive
 
 def handle : List Sexp → Option Sexp
-  | _ => none
+  | [atom "language", spec, d] => do
+      let g := analyse (← parseSpec spec)
+      if !finiteChoice g then pure (atom "not-finite-choice") else
+      pure (list ((boundedLanguage g (← d.asNat?)).map valSx))
+  | [atom "prop_in_language", spec, d, v] => do
+      -- membership by the independent predicates: well-typed (refinements included) and within depth
+      let g := analyse (← parseSpec spec)
+      let v ← parseVal v
+      pure (ofBool (wt g [] (.cls g.spec.start) v && decide (v.depth ≤ (← d.asNat?))))
+  | rest => C01.handle rest
 
 end GEVerif.Drive.C04
